@@ -148,6 +148,41 @@ func TestC08WholePackets(t *testing.T) {
 				split = true
 				h.label("write-fault-inside-resend")
 			},
+			// a Publish with a quit channel waits for the connection to come
+			// back and is cancelled meanwhile (its pooled header buffer goes
+			// back; later publishes must not get to share one)
+			"cancelledWhileWaiting": func(rt *rapid.T) {
+				if c := h.Current(); c != nil {
+					h.Act("break conn=%d", c.N)
+					c.Break(false)
+					h.settleInbound()
+				}
+				n := rapid.IntRange(1, 3).Draw(rt, "n")
+				for i := 0; i < n; i++ {
+					topic, payload := h.topic(), h.payload()
+					quit := make(chan struct{})
+					req := &Req{Kind: "pub0", Topic: topic, Payload: payload, QoS: 0, Quit: "later"}
+					h.Act("pub0 with quit topic=%q len=%d, cancelled while it waits", topic, len(payload))
+					call := h.Go("pub0", req, func() (<-chan error, error) { return nil, h.Client.Publish(quit, payload, topic) })
+					h.SettleCall(call)
+					close(quit)
+					h.MustPoll("cancelled Publish returning", func() bool { return h.IsDone(call) })
+				}
+				h.appStep("reconnect")
+				// … then several publishes at once
+				var wg []*sim.Call
+				for i := 0; i < rapid.IntRange(2, 4).Draw(rt, "burst"); i++ {
+					topic, payload := h.topic(), h.payload()
+					req := &Req{Kind: "pub0", Topic: topic, Payload: payload, QoS: 0, Quit: "nil"}
+					h.Act("pub0 topic=%q len=%d (burst)", topic, len(payload))
+					wg = append(wg, h.Go("pub0", req, func() (<-chan error, error) { return nil, h.Client.Publish(nil, payload, topic) }))
+				}
+				for _, c := range wg {
+					h.SettleCall(c)
+					successCheck(c)
+				}
+				overlap = true
+			},
 			"": func(rt *rapid.T) {
 				noPanics(h)
 				h.checkWire()
